@@ -139,7 +139,7 @@ pm *
         bw
         ~
 """, [S(["pm k1"], [PB(["cl 1", "cl 2", "cl 3"], [S(["bw 40", "bw 45"])], maxlen=2)])],
-    [S(["pm k1"], [PB(["cl 1", "cl 2", "cl 3"], [S(["bw 40", "bw 45"]), S(["p"])])])])
+    [S(["pm k1"], [PB(["cl 1", "cl 2", "cl 3"], [S(["bw 40", "bw 45"]), S(["p"])], maxlen=2)])])
 
 # two sibling block rules that both match one row: the sub-rules of both apply inside it
 fam("F10", """
